@@ -381,6 +381,22 @@ class Reconfigure:
             reference_branch = branch.Branch.open(self._select_bind_location())
             if reference_branch.last_revision() != self.local_branch.last_revision():
                 raise UnsyncedBranches(self.controldir, reference_branch)
+            if self._conflicting_tags(reference_branch):
+                # merging the tags would silently drop the local definitions
+                raise UnsyncedBranches(self.controldir, reference_branch)
+
+    def _conflicting_tags(self, reference_branch):
+        """Return the tags that this branch and reference_branch define differently."""
+        if not (
+            self.local_branch.supports_tags() and reference_branch.supports_tags()
+        ):
+            return []
+        reference_tags = reference_branch.tags.get_tag_dict()
+        return sorted(
+            name
+            for name, revision_id in self.local_branch.tags.get_tag_dict().items()
+            if reference_tags.get(name, revision_id) != revision_id
+        )
 
     def _select_bind_location(self):
         """Select a location to bind or create a reference to.
